@@ -394,7 +394,7 @@ def c06_inputs(tier, prop='C06'):
         cl, kl, nd, per, nr = 4, 3, 300, 200, 30000
     cases = list(gen.strings_upto(gen.CHAR_ALPHABET, cl))
     cases += list(gen.strings_upto(gen.KIND_ALPHABET, kl))
-    cases += gen.env_edge_cases() + gen.odd_char_cases()
+    cases += gen.env_edge_cases() + gen.odd_char_cases() + gen.ascii_boundary_cases()
     exhaustive_n = len(cases)
     docs = [s for s, _ in inputs.grammar_docs(prop, nd, 3, maxchars=400)]
     docs += [s for s in inputs.repo_samples() if len(s) < 3000][:2]
@@ -578,7 +578,7 @@ def c08_inputs(tier, prop='C08'):
         cl, kl, nd, per, nr = 4, 4, 300, 200, 40000
     cases = list(gen.strings_upto(gen.CHAR_ALPHABET_NO_IGN, cl))
     cases += list(gen.strings_upto(gen.KIND_ALPHABET_NO_IGN, kl))
-    cases += gen.env_edge_cases() + gen.odd_char_cases()
+    cases += gen.env_edge_cases() + gen.odd_char_cases() + gen.ascii_boundary_cases()
     nex = len(cases)
     docs = [s for s, _ in inputs.grammar_docs(prop, nd, 3, spaced=True, maxchars=400)]
     cases += docs
@@ -766,7 +766,7 @@ def oracle_C19(tier):
     # characters that only NUL/DEL-like handling could drop: every odd
     # white-space / format / control character at every kind of token boundary,
     # and each alone, doubled and between structure characters
-    cases += gen.odd_char_cases()
+    cases += gen.odd_char_cases() + gen.ascii_boundary_cases()
     for ch in gen.ODD_CHARS + ['\x02', '\x7e', '\x81', '\u200b', '\u200e', '\ufffe', '\U000e0001']:
         cases += [ch, ch + ch, ch + '\\x', '{' + ch + '}', '$' + ch + '$', 'a' + ch + 'b', ch + '%c\n', '\\' + ch]
     for r in pmap(_c19_tok_chunk, chunked(cases, NPROC * 4)):
